@@ -718,6 +718,8 @@ class BaseOutlineCompiler:
             # the spec says that 0xFFFF should be used
             # as the max if the max exceeds 0xFFFF
             maxIndex = 0xFFFF
+            # the same holds for the min (all code points are supplementary)
+            minIndex = min(minIndex, 0xFFFF)
         os2.fsFirstCharIndex = minIndex
         os2.fsLastCharIndex = maxIndex
         os2.usBreakChar = 32
